@@ -339,7 +339,7 @@ func keyReuse(op *ast.OperationDefinition, tags map[string]bool) {
 func routeFacts(s *ast.Schema, op *ast.OperationDefinition, route func(typ, field string) (string, bool), tags map[string]bool) {
 	isAbs := func(d *ast.Definition) bool { return d != nil && (d.Kind == ast.Interface || d.Kind == ast.Union) }
 	var walk func(set ast.SelectionSet, parent *ast.Definition, cur string)
-	memberFields := func(set ast.SelectionSet, tc *ast.Definition, cur string) {
+	memberFields := func(set ast.SelectionSet, tc *ast.Definition, cur string, parent *ast.Definition) {
 		var rec func(set ast.SelectionSet)
 		rec = func(set ast.SelectionSet) {
 			for _, sel := range set {
@@ -350,6 +350,13 @@ func routeFacts(s *ast.Schema, op *ast.OperationDefinition, route func(typ, fiel
 					}
 					if u, ok := route(tc.Name, x.Name); ok && u != cur {
 						tags["f:member-fragment-foreign"] = true
+					}
+					// the planner decides per field *name* over all members of the abstract type: a field of that name
+					// which another member keeps at another service has the same effect
+					for _, pt := range s.PossibleTypes[parent.Name] {
+						if u, ok := route(pt.Name, x.Name); ok && u != cur {
+							tags["f:member-fragment-foreign"] = true
+						}
 					}
 				case *ast.InlineFragment:
 					if x.TypeCondition == "" || x.TypeCondition == tc.Name {
@@ -398,7 +405,7 @@ func routeFacts(s *ast.Schema, op *ast.OperationDefinition, route func(typ, fiel
 					continue
 				}
 				if isAbs(parent) && tc.Kind == ast.Object {
-					memberFields(x.SelectionSet, tc, cur)
+					memberFields(x.SelectionSet, tc, cur, parent)
 				}
 				walk(x.SelectionSet, tc, cur)
 			case *ast.FragmentSpread:
@@ -410,7 +417,7 @@ func routeFacts(s *ast.Schema, op *ast.OperationDefinition, route func(typ, fiel
 					continue
 				}
 				if isAbs(parent) && tc.Kind == ast.Object {
-					memberFields(x.Definition.SelectionSet, tc, cur)
+					memberFields(x.Definition.SelectionSet, tc, cur, parent)
 				}
 				walk(x.Definition.SelectionSet, tc, cur)
 			}
